@@ -15,7 +15,10 @@ import (
 	"math/big"
 	"math/rand"
 	"os"
+	"runtime"
 	"strconv"
+	"sync"
+	"sync/atomic"
 	"testing"
 
 	"github.com/gocql/gocql/internal/lru"
@@ -87,15 +90,27 @@ func vfC09Partitioner(p string) partitioner {
 
 // ---------------------------------------------------------------- observations
 
+// The token object is HELD: "out" is its text right after Hash, "out2" its text after further
+// tokens / routing keys have been produced (see vfC09Writer).
 func vfC09Hash(p string, key []byte) vfC09Vec {
-	v := vfC09Vec{"k": p, "key": vfC09Ints(key), "out": []int{}, "panic": ""}
+	v := vfC09Vec{"k": p, "key": vfC09Ints(key), "out": []int{}, "out2": []int{}, "panic": ""}
 	if p == "rnd" {
 		sum := md5.Sum(key)
 		v["md5"] = vfC09Ints(sum[:])
 	}
+	var held token
 	v["panic"] = vfC09Guard(func() {
-		v["out"] = vfC09Ints([]byte(vfC09Partitioner(p).Hash(key).String()))
+		held = vfC09Partitioner(p).Hash(key)
+		v["out"] = vfC09Ints([]byte(held.String()))
 	})
+	v["_re"] = func() {
+		if held == nil {
+			return
+		}
+		if pan := vfC09Guard(func() { v["out2"] = vfC09Ints([]byte(held.String())) }); pan != "" {
+			v["panic"] = pan
+		}
+	}
 	return v
 }
 
@@ -161,7 +176,7 @@ func vfC09Value(c vfC09Comp) (TypeInfo, interface{}) {
 	panic("vf: unknown component type " + c.T)
 }
 
-var vfC09StmtN int
+var vfC09StmtN int64
 
 // vfC09Session builds a session without network whose prepared-statement cache already holds
 // the PREPARE result for stmt, so that Session.routingKeyInfo derives the routing key
@@ -201,8 +216,13 @@ func vfC09Session(stmt string, cols []ColumnInfo, pkIdx []int, pkeyV4 bool) *Ses
 
 // vfC09Routing observes the routing key for bound values vals whose partition-key columns are,
 // in partition-key order, at the 1-based positions idx.
+// The returned slice is HELD by the harness the way a caller holds it until it hashes it: "out" is
+// its content right after the call, "out2" its content after further routing keys for other values
+// have been produced (vfC09Writer re-reads it later; the concurrent driver after yielding).
 func vfC09Routing(via string, vals []vfC09Comp, idx []int) vfC09Vec {
-	v := vfC09Vec{"k": "rk", "via": via, "vals": vals, "idx": idx, "out": []int{}, "err": "", "panic": ""}
+	v := vfC09Vec{"k": "rk", "via": via, "vals": vals, "idx": idx, "out": []int{}, "out2": []int{}, "err": "", "panic": ""}
+	var held []byte
+	v["_re"] = func() { v["out2"] = vfC09Ints(held) }
 	v["panic"] = vfC09Guard(func() {
 		values := make([]interface{}, len(vals))
 		types := make([]TypeInfo, len(vals))
@@ -219,8 +239,7 @@ func vfC09Routing(via string, vals []vfC09Comp, idx []int) vfC09Vec {
 		}
 		var out []byte
 		var err error
-		vfC09StmtN++
-		stmt := "SELECT * FROM ks.tbl WHERE vf = " + strconv.Itoa(vfC09StmtN)
+		stmt := "SELECT * FROM ks.tbl WHERE vf = " + strconv.FormatInt(atomic.AddInt64(&vfC09StmtN, 1), 10)
 		switch via {
 		case "create":
 			out, err = createRoutingKey(&routingKeyInfo{indexes: idx0, types: ktypes, keyspace: "ks", table: "tbl"}, values)
@@ -249,6 +268,7 @@ func vfC09Routing(via string, vals []vfC09Comp, idx []int) vfC09Vec {
 				v["err"] = "error"
 			}
 		}
+		held = out
 		v["out"] = vfC09Ints(out)
 	})
 	return v
@@ -258,12 +278,18 @@ var vfC09Vias = []string{"create", "query", "prepared4", "preparedmeta", "batch"
 
 // ---------------------------------------------------------------- drivers
 
+// vfC09Writer delays every record by vfC09Window later records: values returned by the real code
+// (routing-key slices, tokens) stay held meanwhile and are re-read ("_re") just before the record is
+// written, so that a returned value that is changed by LATER calls is observed.
 type vfC09Writer struct {
-	f   *os.File
-	w   *bufio.Writer
-	enc *json.Encoder
-	n   int
+	f    *os.File
+	w    *bufio.Writer
+	enc  *json.Encoder
+	n    int
+	held []vfC09Vec
 }
+
+const vfC09Window = 8
 
 func vfC09Create(t *testing.T, path string) *vfC09Writer {
 	f, err := os.Create(path)
@@ -274,14 +300,30 @@ func vfC09Create(t *testing.T, path string) *vfC09Writer {
 	return &vfC09Writer{f: f, w: w, enc: json.NewEncoder(w)}
 }
 
-func (w *vfC09Writer) put(v vfC09Vec) {
+func (w *vfC09Writer) write(v vfC09Vec) {
+	if re, ok := v["_re"].(func()); ok {
+		re()
+	}
+	delete(v, "_re")
 	if err := w.enc.Encode(v); err != nil {
 		panic(err)
 	}
+}
+
+func (w *vfC09Writer) put(v vfC09Vec) {
 	w.n++
+	w.held = append(w.held, v)
+	if len(w.held) > vfC09Window {
+		w.write(w.held[0])
+		w.held = w.held[1:]
+	}
 }
 
 func (w *vfC09Writer) close() {
+	for _, v := range w.held {
+		w.write(v)
+	}
+	w.held = nil
 	w.w.Flush()
 	w.f.Close()
 }
@@ -472,6 +514,67 @@ func TestVfC09TokenRecord(t *testing.T) {
 				idx[j] = perm[j] + 1
 			}
 			vec.put(vfC09Routing(vfC09Vias[rng.Intn(len(vfC09Vias))], vals, idx))
+		}
+	}
+	fmt.Printf("VFSUMMARY {\"vectors\":%d}\n", vec.n)
+}
+
+// TestVfC09TokenConcurrent: VF_G goroutines each obtain routing keys for their own random values,
+// hold the returned slice, yield so that other goroutines produce keys for other values, and re-read
+// the held slice ("out2").  Run once with 2 Ps (several goroutines share a P) and once with all Ps.
+func TestVfC09TokenConcurrent(t *testing.T) {
+	vec := vfC09Create(t, vfC09Env(t, "VF_VECTORS"))
+	defer vec.close()
+	seed, _ := strconv.ParseInt(os.Getenv("VF_SEED"), 10, 64)
+	g, _ := strconv.Atoi(os.Getenv("VF_G"))
+	m, _ := strconv.Atoi(os.Getenv("VF_M"))
+	if g == 0 || m == 0 {
+		t.Fatal("VF_G, VF_M required")
+	}
+	for phase, procs := range []int{2, runtime.NumCPU()} {
+		old := runtime.GOMAXPROCS(procs)
+		got := make([][]vfC09Vec, g)
+		var wg sync.WaitGroup
+		start := make(chan struct{})
+		for gi := 0; gi < g; gi++ {
+			wg.Add(1)
+			go func(gi int) {
+				defer wg.Done()
+				rng := rand.New(rand.NewSource(seed*7368787 + int64(phase*1000+gi)))
+				<-start
+				for j := 0; j < m; j++ {
+					nv := 2 + rng.Intn(3)
+					vals := make([]vfC09Comp, nv)
+					for x := range vals {
+						vals[x] = vfC09RandComp(rng)
+					}
+					perm := rng.Perm(nv)
+					nk := 1 + rng.Intn(3)
+					if nk > nv {
+						nk = nv
+					}
+					idx := make([]int, nk)
+					for x := range idx {
+						idx[x] = perm[x] + 1
+					}
+					v := vfC09Routing(vfC09Vias[rng.Intn(len(vfC09Vias))], vals, idx)
+					for y := rng.Intn(3); y >= 0; y-- {
+						runtime.Gosched()
+					}
+					v["_re"].(func())()
+					delete(v, "_re")
+					v["g"] = gi
+					got[gi] = append(got[gi], v)
+				}
+			}(gi)
+		}
+		close(start)
+		wg.Wait()
+		runtime.GOMAXPROCS(old)
+		for _, vs := range got {
+			for _, v := range vs {
+				vec.put(v)
+			}
 		}
 	}
 	fmt.Printf("VFSUMMARY {\"vectors\":%d}\n", vec.n)
